@@ -79,6 +79,16 @@ pub struct QuantizedHnswIndex {
     quantizer_trained: RwLock<bool>,
 }
 
+/// Verification hook (compiled only with `--cfg grafeo_verif`): the layered graph of the underlying HNSW index.
+#[cfg(grafeo_verif)]
+impl QuantizedHnswIndex {
+    /// Returns (entry point, max level, per node: id and neighbour ids per layer, in stored order).
+    #[must_use]
+    pub fn verif_dump(&self) -> (Option<NodeId>, usize, Vec<(NodeId, Vec<Vec<NodeId>>)>) {
+        self.hnsw.verif_dump()
+    }
+}
+
 impl QuantizedHnswIndex {
     /// Creates a new quantized HNSW index.
     ///
